@@ -33,6 +33,7 @@ package mitm
 //@ extern func net.SplitHostPort
 //@   modifies splitHost, splitErr
 //@   ensures splitHost == result0 && splitErr == result2
+//@   ensures hostport == "" ==> result2 != nil
 //@ extern func (*x509.Certificate).Verify
 //@   modifies lastVerifyErr, lastVerifyLeaf, lastVerifyName, lastVerifyRoots
 //@   ensures lastVerifyErr == result1 && lastVerifyLeaf == self && lastVerifyName == opts.DNSName && lastVerifyRoots == opts.Roots
@@ -56,7 +57,8 @@ package mitm
 //@   modifies c.certs[*], sync.RWMutex.wheld, sync.RWMutex.rheld, lastVerifyErr, lastVerifyLeaf, lastVerifyName, lastVerifyRoots, splitHost, splitErr, tls.Certificate.gIssuedFor
 //@   noframe
 //@   ensures[cache-stays-consistent] certsOK(c)
-//@   ensures[no-certificate-without-a-host] hostname == "" ==> result1 != nil && result0 == nil
+//@   ensures[no-certificate-without-a-host] ite(splitErr == nil, splitHost, hostname) == "" ==> result1 != nil && result0 == nil
+//@   ensures[empty-request-refused] hostname == "" ==> result1 != nil
 //@   ensures[certificate-or-error] (result1 == nil) == (result0 != nil)
 //@   ensures[issued-for-the-requested-name-port-stripped] result1 == nil ==> result0.gIssuedFor == ite(splitErr == nil, splitHost, hostname) && result0.Leaf != nil
 //@   ensures[cached-certificate-reused-only-after-it-verified] result1 == nil ==> fresh(result0) ||
